@@ -143,6 +143,16 @@ impl TextAttribute {
         (self.attr & attribute::BOLD) == attribute::BOLD
     }
 
+    /// Colour number the foreground is shown in: the bold flag of a cell with colour 0..7 selects the bright colour
+    /// (what `as_u8` and the renderer do). The ANSI parser stores bright colours that way.
+    pub(crate) fn get_shown_foreground(self) -> u32 {
+        if self.is_bold() && self.foreground_color < 8 {
+            self.foreground_color + 8
+        } else {
+            self.foreground_color
+        }
+    }
+
     pub fn set_is_bold(&mut self, is_bold: bool) {
         if is_bold {
             self.attr |= attribute::BOLD;
